@@ -3,7 +3,7 @@
    meaning: C05/Spec.v.  All statements are for every number of parents and all cardinalities. *)
 From Coq Require Import List Arith ZArith Lia PeanoNat Bool QArith Qcanon Permutation.
 From PV Require Import Base.Ravel Base.Semiring Base.FinSum Base.RefFactor Base.Graph
-  C05.Model C05.Spec C05.ProofsTable C05.ProofsReorder C05.ProofsValid C05.ProofsMarg C05.ProofsBN.
+  C05.Model C05.Spec C05.ProofsTable C05.ProofsReorder C05.ProofsValid C05.ProofsMarg C05.ProofsBN C05.Store.
 Import ListNotations.
 Local Open Scope nat_scope.
 Local Notation R := Qc_sum_csr.
@@ -272,3 +272,37 @@ Proof.
   - intros j Hj. assert (j = 0) by lia. subst. apply Qc_is_canon. vm_compute. reflexivity.
   - intros j Hj. assert (j = 0 \/ j = 1) as [->| ->] by lia; apply Qc_is_canon; vm_compute; reflexivity.
 Qed.
+
+(* 11. Store model (C05/Store.v): copy() / to_factor() allocate five fresh containers (scope, values,
+       state_names, name_to_no, no_to_name) with the original's contents; hence any in-place operation
+       on one object - any sequence of assignments to that object's own containers - leaves the complete
+       observable content of the other unchanged, in both directions.  With the two lookup tables shared
+       (the seeded variant) the statement is false: emptying a lookup table of the factor changes the CPD. *)
+Theorem C05_tofactor_copy_independent :
+  forall h o, wf_obj h o ->
+    let '(h', o') := clone h o in
+    obs h' o' = obs h o /\ obs h' o = obs h o /\
+    (forall ws, inplace_on o' ws -> obs (apply_writes h' ws) o = obs h o) /\
+    (forall ws, inplace_on o ws -> obs (apply_writes h' ws) o' = obs h o).
+Proof.
+  intros h o W. pose proof (clone_spec h o W) as H. destruct (clone h o) as [h' o'].
+  destruct H as [H1 [H2 [Hd _]]]. split; [exact H1|]. split; [exact H2|]. split.
+  - intros ws Hws. rewrite obs_frame; [exact H2|]. intros w l Hw Hl E. apply (Hd l (fst w) Hl (Hws w Hw)). symmetry. exact E.
+  - intros ws Hws. rewrite obs_frame; [exact H1|]. intros w l Hw Hl E. apply (Hd (fst w) l (Hws w Hw) Hl). exact E.
+Qed.
+Print Assumptions C05_tofactor_copy_independent.
+
+Theorem C05_shared_lookup_tables_refuted :
+  exists h o, wf_obj h o /\
+    let '(h', o') := clone_shared_lookup h o in
+    exists ws, inplace_on o' ws /\ obs (apply_writes h' ws) o <> obs h o.
+Proof.
+  exists {| cells := fun k => Some (CDict [(k, [])]); next := 5 |},
+         {| o_scope := 0; o_vals := 1; o_sn := 2; o_n2no := 3; o_no2n := 4 |}.
+  split.
+  - intros l Hl. simpl in Hl. simpl. intuition lia.
+  - exists [(3, None)]. split.
+    + intros w [<-|[]]. simpl. auto.
+    + vm_compute. discriminate.
+Qed.
+Print Assumptions C05_shared_lookup_tables_refuted.
